@@ -13,6 +13,7 @@
      256  C14-unknown-error-type-not-reported  a received SCMP error of a type outside {1,2,4,5,6}
                                            never reaches the ScmpErrorReceivers *)
 From Sci Require Export Scmp.Model Scmp.Spec.
+From Sci Require Import Wire.Codec.
 Local Open Scope N_scope.
 
 Definition rl := list (N * N).          (* run-length encoded bytes *)
@@ -40,7 +41,6 @@ Inductive scase :=
        (reps : list (N * rl))
        (errs : list (N * (N * N * N * N * N * rl * N * rl))).   (* k, (ty, code, f1, f2, f3, quote, path type, path) *)
 
-Definition bytes_eqb (a b : bytes) : bool := list_eqb N.eqb a b.
 Definition zero_ck (m : bytes) : bytes :=
   match m with a :: b :: _ :: _ :: r => a :: b :: 0 :: 0 :: r | _ => m end.
 
@@ -52,20 +52,7 @@ Definition host_nib_raw (a : host_addr) : N * bytes :=
   end.
 Definition host_len (a : host_addr) : N := blen (snd (host_nib_raw a)).
 
-Definition infof_eqb (a b : infof) : bool :=
-  let '(a1, a2, a3) := a in let '(b1, b2, b3) := b in (a1 =? b1) && (a2 =? b2) && (a3 =? b3).
-Definition hopf_eqb (a b : hopf) : bool :=
-  let '(a1, a2, a3, a4, a5) := a in let '(b1, b2, b3, b4, b5) := b in
-  (a1 =? b1) && (a2 =? b2) && (a3 =? b3) && (a4 =? b4) && (a5 =? b5).
-Definition seg_eqb (a b : seg) : bool := infof_eqb (fst a) (fst b) && list_eqb hopf_eqb (snd a) (snd b).
-Definition dppath_eqb (a b : dppath) : bool :=
-  match a, b with
-  | DP_Empty, DP_Empty => true
-  | DP_OneHop i h1 h2, DP_OneHop j g1 g2 => infof_eqb i j && hopf_eqb h1 g1 && hopf_eqb h2 g2
-  | DP_Std ci ch s, DP_Std cj cg t => (ci =? cj) && (ch =? cg) && list_eqb seg_eqb s t
-  | DP_Unsup t d, DP_Unsup u e => (t =? u) && bytes_eqb d e
-  | _, _ => false
-  end.
+Definition dppath_eqb := path_eqb.
 (** encoded size of a path *)
 Definition dp_size (p : dppath) : N :=
   match p with
@@ -73,8 +60,57 @@ Definition dp_size (p : dppath) : N :=
   | DP_OneHop _ _ _ => OneHopPath_SIZE_BYTES
   | DP_Std _ _ segs => StdPathMeta_SIZE_BYTES + N.of_nat (length segs) * InfoField_SIZE_BYTES
                        + hop_count segs * HopField_SIZE_BYTES
-  | DP_Unsup _ d => blen d
+  | DP_Unsupported _ d => blen d
   end.
+
+(** ** cross-checks against the byte-level packet model of the Wire area (C03) *)
+
+(** the structural path the harness obtained from the implementation ([path().to_model()]) is
+    the one [Wire.Codec.decode_header] reads from the same bytes *)
+Definition path_agrees (v : bytes) (p : dppath) : bool :=
+  match pkt_header v with
+  | Ok hv => match decode_header hv with
+             | Ok h => path_eqb (h_path h) p
+             | Err _ =>      (* undecodable host address: only the path part is compared *)
+               match hv_path_range hv with
+               | Ok (pt, lo, hi) =>
+                 if pt =? PT_EMPTY then path_eqb DP_Empty p
+                 else match (if pt =? PT_SCION then x <- get_unchecked hv lo hi ;; decode_stdpath x
+                             else if pt =? PT_ONEHOP then x <- get_unchecked hv lo hi ;; decode_onehop x
+                             else x <- get_unchecked hv lo hi ;; Ok (DP_Unsupported pt x)) with
+                      | Ok q => path_eqb q p | _ => false end
+               | _ => false end
+             | Panic _ => false end
+  | _ => false end.
+
+(** this model's error message as a [Wire.Types.scmp_msg] *)
+Definition to_wire_msg (m : emsg) : scmp_msg :=
+  let ty := e_ty m in
+  if ty =? SCMP_T_DestinationUnreachable then SM_DestUnreach (written_code m) (e_off m)
+  else if ty =? SCMP_T_PacketTooBig then SM_PktTooBig (trunc 16 (e_f1 m)) (e_off m)
+  else if ty =? SCMP_T_ParameterProblem then SM_ParamProblem (written_code m) (trunc 16 (e_f1 m)) (e_off m)
+  else if ty =? SCMP_T_ExternalInterfaceDown then SM_ExtIfDown (trunc 64 (e_f1 m)) (trunc 16 (e_f2 m)) (e_off m)
+  else SM_IntConnDown (trunc 64 (e_f1 m)) (trunc 16 (e_f2 m)) (trunc 16 (e_f3 m)) (e_off m).
+(** [encode_err] agrees with [Wire.Codec.encode_scmp_body] (both leave the checksum 0) *)
+Definition enc_agrees (m : emsg) (h : N) (mb : bytes) : bool :=
+  let w := to_wire_msg m in
+  bytes_eqb (encode_scmp_body w h (Codec.zeros (scmp_size w h))) mb.
+(** the whole echo reply packet as [Wire.Codec.encode_packet] produces it, checksum included *)
+Definition reply_packet (x : reply) : packet :=
+  mkP (mkH 0 0 PROTO_SCMP (rp_dst_ia x) (rp_src_ia x) (rp_dst_host x) (rp_src_host x) (rp_path x))
+      (PL_Scmp (SM_EchoRep (rp_id x) (rp_seq x) (rp_data x))).
+
+(** the model's and the specification's reading of a received packet agree: "is an echo
+    request" and "is an SCMP error of a defined kind" *)
+Definition model_is_echo (v : bytes) : bool :=
+  match as_scmp v with
+  | Ok (Some sv) => match scmp_type sv with Ok t => t =? T_ECHO_REQUEST | _ => false end
+  | _ => false end.
+Definition model_is_known_error (v : bytes) : bool :=
+  match err_handle v with Ok (Some _) => true | _ => false end.
+Definition reading_agrees (v : bytes) : bool :=
+  Bool.eqb (model_is_echo v) (spec_is_echo_request v)
+  && Bool.eqb (model_is_known_error v) (spec_is_known_error v).
 
 (** addresses of a received packet are SCION host addresses of the right size (literal reader) *)
 Definition spec_nib_ok (nib : N) : bool := (nib =? 0) || (nib =? 3) || (nib =? 4).
@@ -118,7 +154,7 @@ Definition verdict (c : scase) : N :=
     let mis :=
       if negb (header_size_valid h) then negb (oc =? 1)
       else match encode_err m h with
-           | Ok mb => negb ((oc =? 0) && (sp_hdr_len outb =? h)
+           | Ok mb => negb ((oc =? 0) && (sp_hdr_len outb =? h) && enc_agrees m h mb
                             && bytes_eqb (zero_ck (skipn (N.to_nat h) outb)) mb
                             && optN_eqb (Some (blen outb)) (err_packet_size m h)
                             && (sp_dst_nib outb mod 4 + 1 =? dl / 4) && (sp_src_nib outb mod 4 + 1 =? sl / 4))
@@ -133,10 +169,12 @@ Definition verdict (c : scase) : N :=
     let v := rle_expand pkt in let r := rle_expand rep in
     let answered := (oc =? 1) || (oc =? 3) in
     let mis :=
+      negb (path_agrees v p) || negb (reading_agrees v) ||
       match echo_handle v p with
       | Ok None => negb (oc =? 0)
       | Ok (Some x) =>
         negb (answered && dppath_eqb (rp_path x) rpath
+              && ((oc =? 3) || bytes_eqb (encode_packet (reply_packet x)) r)
               && ((oc =? 3) ||
                   (let '(sn, sr) := host_nib_raw (rp_src_host x) in
                    let '(dn, dr) := host_nib_raw (rp_dst_host x) in
@@ -161,6 +199,7 @@ Definition verdict (c : scase) : N :=
     let v := rle_expand pkt in let o := rle_expand out in
     let replied := oc =? 1 in
     let mis :=
+      negb (path_agrees v p) ||
       match sim_reply_target v p with
       | Ok None => negb (oc =? 0) && negb (oc =? 2)
       | Ok (Some (ia, a, rp)) =>
@@ -215,7 +254,8 @@ Definition verdict (c : scase) : N :=
       (fst a =? k') && (e_ty m =? ty) && (e_code m =? code) && (e_f1 m =? f1) && (e_f2 m =? f2)
       && (e_f3 m =? f3) && bytes_eqb (e_off m) (rle_expand q)
       && (cb_path_type (snd a) =? pt) && bytes_eqb (cb_path (snd a)) (rle_expand pb) in
-    let mis := panicked || negb (list_eqb_het dg_eq m_dgs dgs && list_eqb_het rep_eq m_reps reps
+    let mis := panicked || negb (forallb (fun vp : bytes * dppath => path_agrees (fst vp) (snd vp) && reading_agrees (fst vp)) ps)
+               || negb (list_eqb_het dg_eq m_dgs dgs && list_eqb_het rep_eq m_reps reps
                                  && list_eqb_het err_eq m_errs errs) in
     (* oracles on the implementation's observation, packet by packet *)
     let kps := combine (map N.of_nat (seq 1 (length ps))) ps in
